@@ -54,6 +54,12 @@ impl Dev {
             Dev::Bus(m) => m.read(0xff00),
         }
     }
+    /// bus only: one machine cycle of device time passes, IF is neither read nor cleared (direct: nothing happens)
+    fn idle(&mut self) {
+        if let Dev::Bus(m) = self {
+            m.clock(4);
+        }
+    }
     /// collect the latched request (bus: one machine cycle of device time moves it into IF bit 4, which is then cleared)
     fn collect(&mut self) -> bool {
         match self {
@@ -83,7 +89,7 @@ impl Scenario for JoypadEvents {
     }
     fn info(&self) -> Info {
         Info {
-            rule: "one case = a random walk of 50..500 actions (press/release of one of 8 buttons = external events, P1 select writes with garbage in the unused bits, request collection points) from a drawn start state, on the real Joypad directly (3 of 4 runs) or through the bus and IO::run_clock_cycles (IF bit 4); after every action P1 & 0x3F is compared with RefJoypad, at every collection point the request latch. distinct_nontrivial = distinct (8 buttons, 2 select bits, action) transitions taken, of 256 x 4 x 20 = 20480",
+            rule: "one case = a random walk of 50..500 actions (press/release of one of 8 buttons = external events, P1 select writes with garbage in the unused bits, request collection points, and - through the bus - machine cycles that pass without IF being read or cleared) from a drawn start state, on the real Joypad directly (3 of 4 runs) or through the bus and IO::run_clock_cycles (IF bit 4); after every action P1 & 0x3F is compared with RefJoypad, at every collection point the request latch. distinct_nontrivial = distinct (8 buttons, 2 select bits, action) transitions taken, of 256 x 4 x 20 = 20480",
             components_real: &["devices::joypad::Joypad press_button/release_button/set_value/get_value/get_interrupt", "bus mode: mem::memory_write_byte/read_byte 0xFF00/0xFF0F, IO::set_byte/get_byte, IO::run_clock_cycles, MemoryAreas::run_clock_cycles"],
             components_stub: &["CPU absent; the host window's event loop is replaced by the simulator's event schedule"],
             assumptions: &["P1 bits 6-7 not compared", "a request is collected by get_interrupt (direct) or by one machine cycle of device time followed by reading and clearing IF bit 4 (bus)"],
@@ -110,6 +116,9 @@ impl Scenario for JoypadEvents {
                 8..=14 => case.push("r", &[rng.below(8) as i64]),
                 _ => case.push("s", &[(rng.below(4) << 4) as i64 | (rng.byte() & 0xcf) as i64]),
             }
+            if rng.chance(1, 6) {
+                case.push("a", &[]);
+            }
             if rng.chance(1, collect_rate) {
                 case.push("c", &[]);
                 if rng.chance(1, 8) {
@@ -125,6 +134,8 @@ impl Scenario for JoypadEvents {
         let mut dev = if bus { Dev::Bus(IntMachine::from_code(vec![0x18, 0xfe])) } else { Dev::Direct(Joypad::new()) };
         let mode = if bus { "bus" } else { "direct" };
         let mut model = RefJoypad::new();
+        // bus mode: IF bit 4 as the program sees it (a request moved into IF stays there until IF is written)
+        let mut if_bit = false;
         let mut out = Vec::new();
         for (opi, op) in case.ops.iter().enumerate() {
             let before = (model.buttons, model.select, model.lines());
@@ -150,9 +161,18 @@ impl Scenario for JoypadEvents {
                     model.write(v);
                     action = 16 + ((v >> 4) & 3) as u64;
                 }
+                "a" => {
+                    dev.idle();
+                    if bus && model.collect() {
+                        if_bit = true;
+                        ctx.cov.hit("probe.request_left_unacknowledged_in_if");
+                    }
+                    continue;
+                }
                 "c" => {
                     let got = dev.collect();
-                    let want = model.collect();
+                    let want = model.collect() | if_bit;
+                    if_bit = false;
                     if got != want {
                         let sig = if want { format!("C17/request-missed/{}", mode) } else { format!("C17/request-spurious/{}", mode) };
                         out.push(Violation::new("C17", sig, format!("op {}: collected request = {}, model says {} (buttons {:#04x}, select {:#04x})", opi, got, want, model.buttons, model.select)));
